@@ -113,6 +113,11 @@ def probe_src(ws, names, rng, local_defs=None, kinds=None):
                 out.append(f'@pytest.mark.parametrize("{n}", [1, 2], indirect=True)\ndef test_i{u}({n}):\n    pass\n\n')
             elif k == "fixture_param":
                 out.append(f"@pytest.fixture\ndef dep{u}({n}):\n    return {n}\n\n")
+    if len(names) >= 2 and "indirect_multi" in kinds and rng.random() < 0.6:
+        a_, b_ = rng.sample(list(names), 2)
+        u = ws.uid()
+        sep = rng.choice([", ", ","])
+        out.append(f'@pytest.mark.parametrize("{a_}{sep}{b_}", [(1, 2)], indirect=True)\ndef test_im{u}({a_}, {b_}):\n    pass\n\n')
     if local_at_end:
         out.append(local_defs)
     # a decorator line on which completion lists the whole per-file view (no parameter/scope filtering)
@@ -127,7 +132,11 @@ def probe_src(ws, names, rng, local_defs=None, kinds=None):
 
 
 def gen_workspace(root, rng, depth=None, n_names=None, venv=None, collisions=True, allow_imports=True,
-                  allow_redefine=True, allow_multiline=True, probe_kinds=None, module_pkg_twins=False):
+                  allow_redefine=True, allow_multiline=True, probe_kinds=None, module_pkg_twins=False, indirect_multi=False):
+    if indirect_multi:
+        # (only for checks that judge the navigation target: the recorded span of a multi-name indirect string is the
+        # whole literal - KF-C15-indirect-true-multi-name-span - which position-keyed comparisons cannot tell apart)
+        probe_kinds = list(probe_kinds or ["param", "usefixtures", "class_mark", "pytestmark", "indirect", "fixture_param", "kwonly", "method"]) + ["indirect_multi"]
     ws = WS(root)
     depth = depth if depth is not None else rng.randint(1, 4)
     n_names = n_names or rng.randint(2, 4)
